@@ -171,7 +171,10 @@ fn bar_op(rng: &mut Rng, b: u64, w: usize, special: bool, fl: Flavor) -> Op {
     if fl == Flavor::C16 {
         // texts with tabs; tab width changes
         if rng.chance(1, 4) {
-            return Op::new("set_tab_width").n(b).n(*rng.pick(&[0, 1, 2, 4, 8, 13]));
+            return Op::new("set_tab_width").n(b).n(*rng.pick(&[0, 1, 2, 4, 8, 8, 13]));
+        }
+        if rng.chance(1, 8) {
+            return Op::new(if rng.chance(1, 2) { "snapshot_style" } else { "set_style_snapshot" }).n(b);
         }
         return match rng.weighted(&weights) {
             0 => Op::new("tick").n(b),
